@@ -13,6 +13,7 @@ Oracle per generated (type, recipe, input):
 from __future__ import annotations
 
 import collections
+import copy
 import dataclasses
 import typing
 
@@ -130,7 +131,14 @@ CONVERT_PALETTE = [
 
 @st.composite
 def st_case(draw):
-    what = draw(st.sampled_from(["load", "load", "dump", "dump", "extras", "convert", "convert"]))
+    what = draw(st.sampled_from(["load", "load", "dump", "dump", "extras", "extras_out", "convert", "convert"]))
+    if what == "extras_out":
+        return {"what": "extras_out", "how": draw(st.sampled_from(["field_dict", "field_any", "extractor", "two_fields"])),
+                "own": draw(st.sampled_from(["all", "some_skipped", "all_skipped", "only_extra"])),
+                "nested": draw(st.booleans()), "debug": draw(st.integers(0, 2)),
+                "extra": draw(st.lists(st.tuples(st.sampled_from(["u1", "u2", "zz", "k"]),
+                                                 st.sampled_from([1, "s", [1, 2], {"$": "d", "v": [["q", [1]]]}])),
+                                       max_size=3, unique_by=lambda kv: kv[0]).map(lambda kv: [list(p) for p in kv]))}
     if what == "extras":
         return {"what": "extras", "how": draw(st.sampled_from(["field", "kwargs", "saturator", "two_fields"])),
                 "nested": draw(st.booleans()), "debug": draw(st.integers(0, 2)),
@@ -212,6 +220,8 @@ def check_case(ctx: runner.Ctx, case):  # noqa: C901
     what = case["what"]
     if what == "extras":
         return check_extras(ctx, case)
+    if what == "extras_out":
+        return check_extras_out(ctx, case)
     if what == "convert":
         return check_convert(ctx, case)
     if what == "default_size":
@@ -398,6 +408,86 @@ def check_extras(ctx: runner.Ctx, case):  # noqa: C901
         ctx.violation("extra_mapping_shared_between_fields", (how,), case, f"{head}: one mapping object given to two target fields")
     if res[0].b is res[1].b or res[0].b is (datum["inner"]["b"] if case["nested"] else datum["b"]):
         ctx.violation("mutable_container_shared", ("extras", "list_field"), case, f"{head}: loaded list shared")
+
+
+# --------------------------------------------------------------------------------- extras merged into a dump (extra_out)
+@dataclasses.dataclass
+class OutAny:
+    a: int
+    b: typing.List[int]
+    extra: typing.Any
+
+
+@dataclasses.dataclass
+class OnlyExtraDict:
+    extra: typing.Dict[str, typing.Any]
+
+
+@dataclasses.dataclass
+class OnlyExtraAny:
+    extra: typing.Any
+
+
+def check_extras_out(ctx: runner.Ctx, case):  # noqa: C901, PLR0912
+    """The dict a model dumper returns is built by adaptix (own keys merged with the extra data): it is a new object in every
+    call and no object of the dumped value, whatever the extra source hands out and however few own keys the model has."""
+    how, own = case["how"], case["own"]
+    extra = {k: codec.build(v) for k, v in case["extra"]}
+    extra2 = {"w": [1]}
+    if own == "only_extra":
+        if how in ("two_fields",):
+            how = "field_dict"
+        cls = OnlyExtraAny if how == "field_any" else OnlyExtraDict
+        obj = cls(extra)
+        kw = {}
+    else:
+        cls = {"field_dict": WithExtraField, "extractor": WithExtraField, "field_any": OutAny, "two_fields": WithTwoExtra}[how]
+        obj = cls(1, [1, 2], extra, extra2) if how == "two_fields" else cls(1, [1, 2], extra)
+        kw = {}
+        if case["nested"] and own != "all_skipped":
+            kw["map"] = {"b": ("inner", "b")}
+        if own == "some_skipped":
+            kw["skip"] = ["a"]
+        elif own == "all_skipped":
+            kw["skip"] = ["a", "b"]
+    if how == "extractor":
+        # the extractor hands out the mapping stored in the object (a live mapping): documented signature obj -> mapping
+        prov = name_mapping(cls, extra_out=lambda o: o.extra, **{**kw, "skip": [*kw.get("skip", []), "extra"]})
+    elif how == "two_fields":
+        prov = name_mapping(cls, extra_out=["extra", "extra2"], **kw)
+    else:
+        prov = name_mapping(cls, extra_out="extra", **kw)
+    retort = Retort(recipe=[prov], debug_trail=DEBUG[case["debug"]])
+    before = tspec.canon(obj)
+    r1 = retort.dump(obj)
+    keep = copy.deepcopy(r1)
+    r2 = retort.dump(obj)
+    ctx.case(["extras_out", case], bool(case["extra"]) or own in ("all_skipped", "only_extra"),
+             sample={"what": "extras_out", **case},
+             labels=["what:extras_out", f"extras_out:{how}", f"own:{own}", f"nested:{case['nested']}"])
+    head = f"extras_out how={how} own={own} nested={case['nested']} debug={case['debug']} obj={obj!r}"
+    if tspec.canon(obj) != before:
+        ctx.violation("argument_mutated", ("extras_out", how), case, f"{head}: object mutated by dump")
+    if not isinstance(r1, dict) or not isinstance(r2, dict):
+        ctx.violation("dump_form", ("extras_out", type(r1).__name__), case, f"{head}: dumped {r1!r}")
+        return
+    if r1 is r2:
+        ctx.violation("mutable_container_shared", ("extras_out", "result1~result2", own), case,
+                      f"{head}: two dumps returned the same dict object")
+    if any(r1 is m for m in all_mutable_ids(obj).values()):
+        ctx.violation("mutable_container_shared", ("extras_out", "result~argument", own), case,
+                      f"{head}: the dumped dict is an object of the dumped value")
+    if r1 != r2:
+        ctx.violation("repeat_result_differs", ("extras_out", how), case, f"{head}: {r1!r} then {r2!r}")
+    # a caller edits the first document in place: neither the object nor a later dump may change
+    r1["__edited__"] = 1
+    if tspec.canon(obj) != before:
+        ctx.violation("argument_mutated", ("extras_out", "by_editing_the_result", own), case,
+                      f"{head}: editing the dumped dict changed the object")
+    r3 = retort.dump(obj)
+    if r3 != keep:
+        ctx.violation("repeat_result_differs", ("extras_out", "after_result_was_edited", own), case,
+                      f"{head}: {keep!r} then {r3!r}")
 
 
 # --------------------------------------------------------------------------------- converters
